@@ -43,6 +43,11 @@ def _eval(e, x_id, x_name, val):
             return None
         return int({"<": a < b, "<=": a <= b, ">": a > b, ">=": a >= b,
                     "==": a == b, "!=": a != b}[e["op"]])
+    if k == "cond":
+        c = _eval(e["c"], x_id, x_name, val)
+        if c is None:
+            return None
+        return _eval(e["t"] if c else e["f"], x_id, x_name, val)
     return None
 
 
@@ -106,7 +111,7 @@ def _var_test(func, name, assign, conv):
         # returned?
         for r in cfg.return_nodes():
             if r.get("e") is not None and mentions(r["e"], name) and cfg.dominates(assign, r):
-                return ("returned", r)
+                return ("returned", r, name)
         return ("dropped", None)
     b, c = best
     tv = [_eval(c, -1, name, v) for v in fail_vals]
@@ -536,29 +541,38 @@ def rule_W3(ctx):
             else:
                 ctx.violation(f.name, "error ends the loop", "a negative write() result does "
                               "not end the retry loop", f.loc(loop))
-            # returns negative iff result < 0
-            for r in cfg.return_nodes():
-                e = r.get("e")
-                if e is None:
-                    continue
-                good = False
-                if e["k"] == "cond" and mentions(e["c"], res):
-                    t_on_neg = _eval(e["c"], -1, res, -1)
-                    t_on_ok = _eval(e["c"], -1, res, 3)
-                    if t_on_neg is not None and t_on_ok is not None and t_on_neg != t_on_ok:
-                        neg_branch = e["t"] if t_on_neg else e["f"]
-                        ok_branch = e["f"] if t_on_neg else e["t"]
-                        nv = cval(neg_branch)
-                        good = nv is not None and nv < 0 and not (
-                            cval(ok_branch) is not None and cval(ok_branch) < 0)
-                elif cval(e) is not None:
-                    # constant return: fine when it is a failing return dominated by res < 0
-                    good = True
-                if good:
-                    ctx.ok(f.name, "returns negative exactly when write() failed", loc=f.loc(r))
+            # a failed write() is reported as a negative result: from the failing edge of the
+            # test of the result only negative returns are reachable
+            rt = result_test(f, w, "<0")
+            if rt[0] == "branch":
+                _, bid, kk, cond = rt
+                start = cfg.blocks[bid].succ[kk]
+                seen = cfg.reachable_blocks(start)
+                badr = None
+                n_r = 0
+                for r in cfg.return_nodes():
+                    pr = cfg.pos(r)
+                    if pr is None or pr[0] not in seen or r.get("e") is None:
+                        continue
+                    n_r += 1
+                    v = _eval(r["e"], w["id"], res, -1)
+                    if v is None:
+                        v = cval(r["e"])
+                    if v is None or v >= 0:
+                        badr = r
+                if badr is not None:
+                    ctx.violation(f.name, "error result", "after write() failed (test %s) the function "
+                                  "can return %s, which callers read as success" % (key(cond), key(badr["e"])),
+                                  f.loc(badr))
+                elif n_r:
+                    ctx.ok(f.name, "a failed write() makes the function return a negative value", loc=f.loc(w))
                 else:
-                    ctx.violation(f.name, "error result", "return value %s does not report a "
-                                  "negative write() result as failure" % key(e), f.loc(r))
+                    ctx.violation(f.name, "error result", "no return after a failed write()", f.loc(w))
+            elif rt[0] in ("dropped", "nodistinct"):
+                ctx.violation(f.name, "error result", "the result of write() is not tested for failure "
+                              "(%s)" % (rt[1] or "discarded"), f.loc(w))
+            else:
+                ctx.inconclusive(f.name, "error result", "test of write() result not recognised", f.loc(w))
 
 
 SUCCESS_EFFECTS_ECWRITE = None
@@ -632,7 +646,8 @@ def rule_W4(ctx):
         r = result_test(bm, c, "!=NULL")
         if r[0] == "returned":
             e = r[1]["e"]
-            tv, ov = _eval(e, c["id"], None, 1), _eval(e, c["id"], None, 0)
+            vn = r[2] if len(r) > 2 else None
+            tv, ov = _eval(e, c["id"], vn, 1), _eval(e, c["id"], vn, 0)
             if tv and ov == 0:
                 ctx.ok("bufs_modified", "autowrite failure keeps the buffer modified",
                        loc=bm.loc(c))
